@@ -2,7 +2,7 @@
 """Runs coqchk -o ONCE over every module any property file depends on (not the props/Cxx.v files, not the CRC shard
 files — see DESIGN.md §9), without a time limit, prints its report, and on success records the verdict in the
 coqchk cache of every property whose dependency closure is unchanged (so that the thorough tier can reuse it).
-Takes roughly an hour and ~20 GB on this development (coqchk has no bytecode VM)."""
+Takes about a quarter of an hour (877-977 s measured) on this development; coqchk has no bytecode VM, which is why the props files with their vm_compute examples and the CRC shard files are left out."""
 import os, sys, json, hashlib, importlib, subprocess, time
 HERE = os.path.dirname(os.path.abspath(__file__))
 sys.path.insert(0, HERE)
